@@ -307,6 +307,12 @@ func (env *SpecEnv) evalField(e *SExpr) Val {
 					}
 				}
 			}
+			if a0 := e.Args[0]; addr == "" && a0.Kind == SField {
+				// ghost field of a struct-valued field y.f: keyed by the field's address
+				if a, ok := env.fieldAddrOf(a0); ok {
+					addr = a.T
+				}
+			}
 			if addr == "" {
 				env.fail(e, "ghost field on struct value")
 			}
@@ -504,12 +510,23 @@ func (env *SpecEnv) evalCall(e *SExpr) Val {
 		key, srt := fc.elemsKey(elem)
 		c := app("select", fc.heapGet(env.st(), key, srt), app("s-arr", sv.T))
 		return Val{T: app(fn, c, fc.addIdx(app("s-off", sv.T), fc.toIdx(arg(1))), fc.toIdx(arg(2))), Ty: elem}
+	case "noelems": // the empty set of references ([0]bool, all false)
+		return Val{T: "((as const (Array Int Bool)) false)", Ty: types.NewArray(tBool, 0)}
+	case "addrof": // addrof(y.f): the address of the struct-valued field f of *y
+		if a, ok := env.fieldAddrOf(e.Args[0]); ok {
+			return a
+		}
+		env.fail(e, "addrof: argument must be a struct-valued field y.f of a pointer y")
 	case "arrid":
 		return Val{T: app("s-arr", arg(0).T), Ty: types.Typ[types.Uintptr]}
 	case "off":
 		return Val{T: app("s-off", arg(0).T), Ty: tInt}
 	case "tag": // dynamic type tag of an interface value
 		return Val{T: app("iface.tag", arg(0).T), Ty: tInt}
+	case "tagof": // tagof(T): the type tag of the (package-level) type T
+		t := fc.resolveType(specTypeText(e.Args[0]), env.homePkg)
+		fc.box(fc.zero(t), types.NewInterfaceType(nil, nil))
+		return Val{T: fmt.Sprint(fc.typeTag(t)), Ty: tInt}
 	case "visited": // visited(loopOrdinal, key): ghost set of a map-range loop
 		ord, _ := strconv.Atoi(e.Args[0].Name)
 		key := fmt.Sprintf("$visited$%d", ord)
@@ -815,6 +832,23 @@ func (fc *FnCtx) resolveType0(text string, pkg *types.Package) types.Type {
 		return nil
 	case text == "interface{}" || text == "any":
 		return types.NewInterfaceType(nil, nil)
+	case text == "struct{}":
+		return types.NewStruct(nil, nil)
+	case strings.HasPrefix(text, "<-chan "):
+		if e := fc.resolveType0(strings.TrimSpace(text[7:]), pkg); e != nil {
+			return types.NewChan(types.RecvOnly, e)
+		}
+		return nil
+	case strings.HasPrefix(text, "chan<- "):
+		if e := fc.resolveType0(strings.TrimSpace(text[7:]), pkg); e != nil {
+			return types.NewChan(types.SendOnly, e)
+		}
+		return nil
+	case strings.HasPrefix(text, "chan "):
+		if e := fc.resolveType0(strings.TrimSpace(text[5:]), pkg); e != nil {
+			return types.NewChan(types.SendRecv, e)
+		}
+		return nil
 	}
 	if i := strings.LastIndex(text, "."); i >= 0 {
 		pn, tn := text[:i], text[i+1:]
@@ -905,4 +939,34 @@ func (env *SpecEnv) applyClosure(e *SExpr, cl *closure, args []Val, safeMode boo
 	fc.counters = savedCounters
 	// the outer path condition is a hypothesis of every goal; drop it (we are inside a spec formula evaluated under it)
 	return Val{T: and(goals...), Ty: tBool}
+}
+
+// fieldAddrOf: for a spec expression y.f (y a pointer to struct), the address of field f.
+func (env *SpecEnv) fieldAddrOf(e *SExpr) (Val, bool) {
+	if e.Kind != SField {
+		return Val{}, false
+	}
+	y := env.eval(e.Args[0])
+	ys, yowner, yptr := structOf(y.Ty)
+	if ys == nil || !yptr {
+		return Val{}, false
+	}
+	idx := fieldIndex(yowner, e.Name)
+	if idx < 0 {
+		return Val{}, false
+	}
+	return env.fc.fieldAddr(env.st(), y, idx, token.NoPos), true
+}
+
+// specTypeText renders a spec expression that names a type (T, pkg.T) back to text.
+func specTypeText(e *SExpr) string {
+	switch e.Kind {
+	case SIdent:
+		return e.Name
+	case SField:
+		return specTypeText(e.Args[0]) + "." + e.Name
+	case SUnary:
+		return e.Name + specTypeText(e.Args[0])
+	}
+	return e.Name
 }
